@@ -124,7 +124,7 @@ theorem strE_subscript_inv {S : PrintPrec} {a i : Expr} {enc : Nat} {ps : Pieces
   have hi' : ∀ cs, i = .tuple cs → False := hi
   rw [strE] at h
   · simp only [bind_eq_ok, pure, Except.pure, Except.ok.injEq] at h
-    obtain ⟨x, hx, y, hy, rfl⟩ := h
+    obtain ⟨y, hy, x, hx, rfl⟩ := h
     exact ⟨x, y, hx, hy, rfl⟩
   · exact hi'
 
@@ -185,7 +185,7 @@ theorem strE_good (S : PrintPrec) : ∀ (e : Expr) (enc : Nat) (ps : Pieces),
   | .callKw f as ns vs, enc, ps, hs, h => by
     simp only [LexSafe, Bool.and_eq_true] at hs
     simp only [strE, bind_eq_ok, pure, Except.pure, Except.ok.injEq] at h
-    obtain ⟨fp, hf, ap, ha, vp, hv, rfl⟩ := h
+    obtain ⟨ap, ha, vp, hv, fp, hf, rfl⟩ := h
     refine good_bracketed (strE_good S f _ _ hs.1.1.1 hf) sepOk_lpar sufOk_rpar sufOk_call0 ?_
     intro x hx
     rcases List.mem_append.mp hx with hx | hx
@@ -198,7 +198,7 @@ theorem strE_good (S : PrintPrec) : ∀ (e : Expr) (enc : Nat) (ps : Pieces),
     cases i with
     | tuple cs =>
       simp only [strE, bind_eq_ok, pure, Except.pure, Except.ok.injEq] at h
-      obtain ⟨ap, ha, ip, hi, rfl⟩ := h
+      obtain ⟨ip, hi, ap, ha, rfl⟩ := h
       have hsl : LexSafeL S cs = true := by simpa [LexSafe] using hs.2
       exact good_parenIf (good_bracketed (iha _ ha) sepOk_lbr sufOk_rbr sufOk_index0
         (strL_good S cs _ _ hsl hi)) _ _
